@@ -82,7 +82,8 @@ bool Parser::parseExternalDeclaration(DeclarationSyntax*& decl)
 
     switch (peek().kind()) {
         case SyntaxKind::SemicolonToken:
-            consume();
+            // A stray `;' is kept in the tree (as a declaration without specifiers).
+            parseIncompleteDeclaration_AtFirst(decl, nullptr);
             break;
 
         case SyntaxKind::Keyword__Static_assert:
